@@ -10,7 +10,8 @@ TYPES = {
     "bigint": ("2**40", "2**40 + 1"), "empties": ("[]", "{}"), "negint": ("-1", "1"),
 }
 CONTEXTS = ["stmt", "if", "else", "for", "while", "with", "try", "finally", "listcomp", "genexp", "dictlit", "fstring", "ifexp",
-            "boolop", "kwarg", "star", "subscript", "augassign", "annassign", "walrus", "assert", "multiline", "nested_def", "tuple"]
+            "boolop", "kwarg", "star", "subscript", "augassign", "annassign", "walrus", "assert", "multiline", "nested_def", "tuple",
+            "lambda_param", "except_as", "nested_def_param"]
 IMPORT_FORMS = ["from", "alias", "attr", "import_as", "import_full", "relative", "star", "reexport"]
 
 ENTRIES = {
@@ -307,6 +308,29 @@ def unit_inherited():
                      sid="U/inherited_method", key="inherited_method")
 
 
+def unit_local_module_import():
+    """an accepted top-level module that only this function imports, inside its body: import vh.hmod; vh.hmod.h1()"""
+    extra = [{"name": "h1", "module": "H:hmod", "params": [], "body": []}]
+    return _scaffold([{"k": "call", "fn": "h1", "form": "local_module_import"}], extra_funcs=extra, eps=[{"id": "tag:h1", "kind": "body_tag", "n": 2}],
+                     sid="U/local_module_import", key="module_imported_inside_function")
+
+
+def unit_result_crlf():
+    """a kept text result that contains carriage returns (CSV text): the value read back from a file store must be the same"""
+    s = _scaffold([], eps=[{"id": "tag:K", "kind": "body_tag", "n": 2}, {"id": "tag:Kd", "kind": "body_tag", "n": 1}], sid="U/result_crlf", key="result_with_carriage_returns")
+    for f in s["funcs"]:
+        if f["name"] in ("K", "Kd"):
+            f["suffix"] = "a\r\nb\rc\n"
+    return s
+
+
+def unit_nested_rt_keep_in_datafn():
+    """a zero-argument data function without inputs of its own keeps another function with a run-time argument"""
+    g = {"name": "G", "module": "main", "params": [["x", None]], "body": []}
+    core = [{"k": "const", "expr": "5"}, {"k": "keep", "path": "/u/g", "fn": "G", "args": [{"local": 0}]}]
+    return _scaffold(core, extra_funcs=[g], eps=[{"id": "tag:S", "kind": "body_tag_sibling", "n": 2}], sid="U/nested_rt_keep_in_datafn", key="nested_rt_keep_in_datafn")
+
+
 def unit_structural(kind):
     """edits outside every cone: unrelated definitions, reordering, comments"""
     var = {"name": "V0", "module": "main", "values": ["1"]}
@@ -346,6 +370,7 @@ def unit_programs(level="quick"):
     out.append(unit_default_twice())
     out += [unit_shadow(h) for h in SHADOWS]
     out += [unit_class_attr(), unit_local_import(), unit_inherited()]
+    out += [unit_local_module_import(), unit_result_crlf(), unit_nested_rt_keep_in_datafn()]
     return out
 
 
